@@ -131,7 +131,7 @@ pub fn run(args: &Args) -> i32 {
     let tier = args.tier;
     let mut rep = Report::new("C17", tier, "model_checking");
     let start = Instant::now();
-    let budget_s = if tier == Tier::Thorough { 15.0 * 60.0 } else { 40.0 };
+    let budget_s = if tier == Tier::Thorough { 30.0 * 60.0 } else { 45.0 };
     let mut findings = Findings::new();
     let (mut states, mut transitions, mut max_depth) = (0u64, 0u64, 0usize);
     let mut phases: Vec<Value> = vec![];
@@ -176,8 +176,8 @@ pub fn run(args: &Args) -> i32 {
                 continue;
             }
             let al = projected(proj, cfg.targets);
-            let depth = if tier == Tier::Thorough { 9 } else if proj == "modes" { 5 } else { 6 };
-            let cap = if tier == Tier::Thorough { 60_000 } else { 4_000 };
+            let depth = if tier == Tier::Thorough { 9 } else if proj == "modes" { 4 } else if proj == "navigation" { 5 } else { 6 };
+            let cap = if tier == Tier::Thorough { 60_000 } else { 2_500 };
             let r = explore::bfs(cfg, &al, &[], depth, cap, &no_check);
             states += r.states;
             transitions += r.transitions;
@@ -220,6 +220,36 @@ pub fn run(args: &Args) -> i32 {
         }
         eprintln!("C17 progress: details done at {:.1}s ({} states, depth {}, fixpoint {})", start.elapsed().as_secs_f64(), r.states, r.max_depth, r.fixpoint);
         phases.push(json!({"phase": "projected:details", "config": "single-target", "alphabet": al.len(), "depth_bound": depth, "states": r.states, "transitions": r.transitions, "fixpoint_reached": r.fixpoint, "max_depth": r.max_depth, "failures": r.fails.len()}));
+    }
+    // (ii-a3) further small alphabets searched towards their fixpoints: a feature x freeze x clear
+    {
+        use TraceEv::{Branch, Path3, Path5, SilentKnown};
+        let two = WorldCfg { targets: 2, ..base.clone() };
+        let small: Vec<(&str, &WorldCfg, Vec<&'static str>, Vec<(TraceEv, usize)>)> = vec![
+            ("flows-freeze", &base, vec!["toggle_flows", "next_trace", "previous_trace", "next_hop", "toggle_freeze", "clear_trace_data"], vec![(Path3, 0), (Branch, 0), (Path5, 0)]),
+            ("chart-map-freeze", &base, vec!["toggle_chart", "toggle_map", "next_hop", "previous_hop", "clear_selection", "toggle_freeze", "clear_trace_data"], vec![(Path3, 0), (SilentKnown, 0), (Path5, 0)]),
+            ("hosts-freeze", &base, vec!["expand_hosts", "contract_hosts", "expand_hosts_max", "contract_hosts_min", "next_hop", "toggle_freeze", "clear_trace_data"], vec![(Path3, 0), (Branch, 0), (SilentKnown, 0)]),
+            ("privacy-flows-freeze", &base, vec!["expand_privacy", "contract_privacy", "toggle_flows", "next_trace", "toggle_freeze", "clear_trace_data"], vec![(Path3, 0), (Branch, 0), (Path5, 0)]),
+            ("two-targets-freeze", &two, vec!["next_trace", "previous_trace", "next_hop", "toggle_hop_details", "toggle_freeze", "clear_trace_data"], vec![(Path3, 0), (Path5, 1), (Branch, 1)]),
+        ];
+        for (name, cfg, keys, traces) in small {
+            if start.elapsed().as_secs_f64() > budget_s {
+                rep.cap_hit.get_or_insert(format!("wall budget {budget_s}s hit before projection {name}"));
+                continue;
+            }
+            let mut al: Vec<Ev> = keys.into_iter().map(Ev::Key).collect();
+            al.extend(traces.into_iter().map(|(t, i)| Ev::Trace(t, i)));
+            let depth = if tier == Tier::Thorough { 16 } else { 10 };
+            let r = explore::bfs(cfg, &al, &[], depth, if tier == Tier::Thorough { 150_000 } else { 2_500 }, &no_check);
+            states += r.states;
+            transitions += r.transitions;
+            max_depth = max_depth.max(r.max_depth);
+            for (h, f) in &r.fails {
+                record(&mut findings, "C17", cfg, h, f, None);
+            }
+            eprintln!("C17 progress: {name} done at {:.1}s ({} states, depth {}, fixpoint {})", start.elapsed().as_secs_f64(), r.states, r.max_depth, r.fixpoint);
+            phases.push(json!({"phase": format!("projected:{name}"), "alphabet": al.len(), "depth_bound": depth, "states": r.states, "transitions": r.transitions, "fixpoint_reached": r.fixpoint, "max_depth": r.max_depth, "failures": r.fails.len()}));
+        }
     }
     // (ii-b) the settings dialog in depth: first the navigation fixpoint (every tab, every row),
     // then from EVERY navigation state all sequences of <= k events of the dialog's whole alphabet
@@ -271,7 +301,7 @@ pub fn run(args: &Args) -> i32 {
     let size_fails: Mutex<Vec<(usize, (u16, u16), StepFail)>> = Mutex::new(vec![]);
     let redraws = Mutex::new(0u64);
     let n_states = reached_for_sizes.len();
-    let stride = if tier == Tier::Quick { (n_states / 60).max(1) } else { 1 };
+    let stride = if tier == Tier::Quick { (n_states / 36).max(1) } else { 1 };
     let picked: Vec<usize> = (0..n_states).step_by(stride).collect();
     mc::par_for(picked.len(), mc::workers(), |k| {
         if start.elapsed().as_secs_f64() > budget_s * 1.5 {
@@ -302,7 +332,7 @@ pub fn run(args: &Args) -> i32 {
     rep.set("redraws_at_other_sizes", json!(redraws));
     rep.set("terminal_sizes", json!(sizes.len()));
     rep.set("phases", json!(phases));
-    rep.set("rule", json!("state = history of events replayed on a fresh real TuiApp (+ real un-started Tracers fed by verif_apply_round) drawn with the real render on a TestBackend; events = every binding of run_app's dispatch chain under the same mode gating (46 commands; table checked against the source at start-up) + 8 trace updates per target (3-hop path, shorter path, other ECMP branch, nothing answers, nothing answers with the target distance carried over from an earlier round, failed probes, 5-hop path with unknown hop, fatal error); each step does what one turn of run_app does (snapshot/clamp/order unless frozen, draw). Level-synchronous BFS de-duplicated on a canonical key (UI fields verbatim, trace state by shape); full alphabet to the depth bound per configuration, projected alphabets towards a fixpoint (navigation, settings, modes; details x freeze x clear to depth 12 / 16; flows: three distinct paths against flow caps 1, 2, 3); settings dialog: navigation fixpoint (every tab, every row), then every sequence of <= 2 (quick; 1 on the column-set variants; 3 thorough) dialog events from every navigation state; every picked reached state re-drawn at the listed terminal sizes. Oracle: no panic in any command, loop-top or draw; selected hop/address/flow/trace/settings tab refer to existing entries before every draw"));
+    rep.set("rule", json!("state = history of events replayed on a fresh real TuiApp (+ real un-started Tracers fed by verif_apply_round) drawn with the real render on a TestBackend; events = every binding of run_app's dispatch chain under the same mode gating (46 commands; table checked against the source at start-up) + 8 trace updates per target (3-hop path, shorter path, other ECMP branch, nothing answers, nothing answers with the target distance carried over from an earlier round, failed probes, 5-hop path with unknown hop, fatal error); each step does what one turn of run_app does (snapshot/clamp/order unless frozen, draw). Level-synchronous BFS de-duplicated on a canonical key (UI fields verbatim, trace state by shape); full alphabet to the depth bound per configuration, projected alphabets towards a fixpoint (navigation, settings, modes; details x freeze x clear to depth 12 / 16, and five more feature x freeze x clear alphabets (flows, chart/map, hosts, privacy x flows, two targets) to depth 10 / 16; flows: three distinct paths against flow caps 1, 2, 3); settings dialog: navigation fixpoint (every tab, every row), then every sequence of <= 2 (quick; 1 on the column-set variants; 3 thorough) dialog events from every navigation state; every picked reached state re-drawn at the listed terminal sizes. Oracle: no panic in any command, loop-top or draw; selected hop/address/flow/trace/settings tab refer to existing entries before every draw"));
     rep.sample(json!({"config": "single-target", "history": ["trace0:Branch", "key:toggle_flows", "key:clear_trace_data"]}));
     rep.assumptions = vec!["command table replicates run_app's dispatch (self-checked against the source text)".into(), "clock pinned; DNS cache pre-seeded (flush re-seeds at once); GeoIP from a generated fixture".into(), "counters/latencies are not part of the canonical key (DESIGN.md 3/C17)".into()];
     rep.finish()
